@@ -560,7 +560,9 @@ fn rand_record(rng: &mut Rng, idx: usize, refs: &[RefDesc], rgs: &[String], o: &
         let n = rng.urange(1, o.max_read);
         seq = (0..n).map(|_| rand_base(rng)).collect();
         cigar = Vec::new();
-        mapq = if rng.chance(1, 4) { Some(0) } else { None };
+        // CRAM has no mapping quality for unmapped reads (the MQ series exists for mapped reads only):
+        // in the common model an unmapped read carries none
+        mapq = None;
         if o.placed_unmapped && !refs.is_empty() && rng.chance(1, 3) {
             let r = rng.usize_below(refs.len());
             rid = Some(r);
@@ -631,6 +633,8 @@ pub const DET_CLASSES: &[&str] = &[
     "multi-reference",
     "unmapped-only",
     "multi-block",
+    // minimal set for a shape the random part avoids (read names are generated as r<index>...)
+    "witness-headerless-sam-qname-starts-with-CRAM",
 ];
 
 pub const RANDOM_CLASSES: &[&str] = &["many-mixed", "multi-reference", "unmapped-only", "one-mapped", "few-long", "header-only", "multi-block"];
@@ -691,6 +695,12 @@ pub fn make_set(class: &str, seed: u64) -> ASet {
             let n = rng.urange(500, 800);
             let recs = (0..n).map(|i| rand_record(rng, i, &refs, &rgs, &o(true, true, 200))).collect();
             (header_text(&refs, hd, &rgs, true), refs, recs)
+        }
+        // no header lines, first (and only) read is named CRAM0: the SAM text starts with the CRAM magic
+        "witness-headerless-sam-qname-starts-with-CRAM" => {
+            let mut r = rand_record(rng, 0, &[], &[], &GenOpts { mapped: false, unmapped: true, placed_unmapped: false, max_read: 30, aux: false });
+            r.name = "CRAM0".into();
+            (String::new(), Vec::new(), vec![r])
         }
         c => panic!("unknown alignment set class {c}"),
     };
@@ -871,8 +881,10 @@ pub fn structural_check(fmt: AFmt, bytes: &[u8]) -> Result<(), (&'static str, St
     };
     let ok = match fmt {
         AFmt::Bam | AFmt::BamRaw => plain.starts_with(b"BAM\x01"),
-        AFmt::Cram => plain.starts_with(b"CRAM"),
-        AFmt::Sam | AFmt::SamGz => !plain.starts_with(b"BAM\x01") && !plain.starts_with(b"CRAM") && (plain.is_empty() || plain[0] == b'@' || plain[0].is_ascii_graphic()),
+        // a CRAM file definition is the magic followed by the major/minor version bytes (control characters)
+        AFmt::Cram => plain.starts_with(b"CRAM") && plain.get(4).is_some_and(|&b| b < 0x20),
+        // SAM text: empty, a header line, or a record line (QNAME is printable; a read may be called CRAM0)
+        AFmt::Sam | AFmt::SamGz => !plain.starts_with(b"BAM\x01") && plain.iter().take_while(|&&b| b != b'\n').all(|&b| b == b'\t' || (0x20..0x7f).contains(&b)),
     };
     if ok { Ok(()) } else { Err(("format", format!("payload starts with {:?}, which is not {}", String::from_utf8_lossy(&plain[..plain.len().min(8)]), fmt.name()))) }
 }
